@@ -190,6 +190,40 @@ fn case_typed<S: Spec>(ti: usize, sub: &str, id: u64, r: &mut Report) {
                 }
             }
         }
+        // consecutive jumps from RELATED states (word i ^= d, word j ^= rot(d, k);
+        // additive pairs; swapped words): a result memoised or fingerprinted on
+        // part of the state would be reused across them
+        "related_pairs" => {
+            let words = S::SEED_LEN / wb;
+            let bits = (wb * 8) as u32;
+            let mask = if wb == 4 { 0xffff_ffffu64 } else { u64::MAX };
+            let rd = |s: &[u8], i: usize| -> u64 { let mut v = 0u64; for k in 0..wb { v |= (s[i * wb + k] as u64) << (8 * k); } v };
+            let wr = |s: &mut [u8], i: usize, v: u64| { for k in 0..wb { s[i * wb + k] = (v >> (8 * k)) as u8; } };
+            let rot = |v: u64, k: u32| -> u64 { let k = k % bits; if k == 0 { v & mask } else { ((v << k) | ((v & mask) >> (bits - k))) & mask } };
+            let (_, x) = gen_seed(&mut p, S::SEED_LEN, wb, false);
+            let long = p.chance(1, 2);
+            let i = p.below(words as u64) as usize;
+            let j = (i + 1 + p.below(words as u64 - 1) as usize) % words;
+            let d = { let v = p.u64() & mask; if v == 0 { 1 } else { v } };
+            let mut n_pairs = 0u64;
+            for k in 0..bits {
+                for variant in 0..3 {
+                    let mut y = x.clone();
+                    match variant {
+                        0 => { wr(&mut y, i, rd(&x, i) ^ d); wr(&mut y, j, rd(&x, j) ^ rot(d, k)); }
+                        1 => { wr(&mut y, i, rd(&x, i).wrapping_add(rot(d, k)) & mask); wr(&mut y, j, rd(&x, j).wrapping_sub(rot(d, k)) & mask); }
+                        _ => { if k > 0 { continue; } let (a, b) = (rd(&x, i), rd(&x, j)); wr(&mut y, i, b); wr(&mut y, j, a); }
+                    }
+                    if y == x || y.iter().all(|&b| b == 0) { continue; }
+                    // X then Y back to back on this thread, same method
+                    if !check_jump::<S>(&o, &x, long, "related_pair_first", sub, id, r) { return; }
+                    if !check_jump::<S>(&o, &y, long, "related_pair_second", sub, id, r) { return; }
+                    n_pairs += 1;
+                }
+            }
+            r.covn(&format!("related_pairs:{}", S::NAME), n_pairs);
+            r.distinct(hkey(&[&"related", &S::NAME, &x, &i, &j]));
+        }
         _ => r.inconclusive(format!("unknown sub-monitor {} for C06", sub)),
     }
 }
@@ -234,12 +268,14 @@ pub fn run(ctx: &Ctx, only: Option<&Only>) -> Report {
     let secs = if ctx.tier_thorough { ctx.budget_s } else { 0.0 };
     total.merge(drive(ctx, "random", ctx.n(12_000, 12_000), secs * 0.5, |id, r| case("random", id, r)));
     total.merge(drive(ctx, "commute", ctx.n(2_000, 2_000), secs * 0.2, |id, r| case("commute", id, r)));
-    total.merge(drive(ctx, "linearity", ctx.n(2_400, 2_400), secs * 0.3, |id, r| case("linearity", id, r)));
+    total.merge(drive(ctx, "linearity", ctx.n(2_400, 2_400), secs * 0.2, |id, r| case("linearity", id, r)));
+    total.merge(drive(ctx, "related_pairs", ctx.n(600, 600), secs * 0.1, |id, r| case("related_pairs", id, r)));
     for &ti in &JUMP_TYPES {
         let n = with_spec!(ti, S => S::SEED_LEN * 8) as u64;
         total.floor(&format!("basis:{}", TYPE_NAMES[ti]), n);
         total.floor(&format!("type:{}", TYPE_NAMES[ti]), 100);
         total.floor(&format!("linearity_obs:{}", TYPE_NAMES[ti]), 1000);
+        total.floor(&format!("related_pairs:{}", TYPE_NAMES[ti]), 500);
     }
     total.note("inference: the real step agreed with the observed matrix T on every linearity observation counted in linearity_obs:*; jump/long_jump agree with T^(2^(n/2)) / T^(2^(3n/4)) on all n basis states, hence (by linearity of both sides) on every state consistent with those observations".into());
     total
